@@ -296,10 +296,13 @@ def mux_check(prop, tier, seed, replay):
                 batches.append((mode, out))
             # 2b. specification -> implementation replay: behaviours of the specification (TLC simulation of
             #     MC_MuxSched.tla at the grain of the simulator) executed as schedules on the real code
-            if prop in ("C02", "C03", "C04", "C05", "C06", "C07", "C08", "C11"):
+            if prop in ("C02", "C03", "C04", "C05", "C06", "C07", "C08", "C11", "C13", "C15"):
                 import tlc_sched
                 nb = 120 if tier == "quick" else 2500
-                sch, nstates = tlc_sched.schedules(nb, 70, seed)
+                scfg = {"C13": "MC_MuxSched_bridge.cfg", "C15": "MC_MuxSched_bind.cfg"}.get(prop, "MC_MuxSched.cfg")
+                if prop in ("C13", "C15"):
+                    nb = 40 if tier == "quick" else 1200
+                sch, nstates = tlc_sched.schedules(nb, 70, seed, cfg=scfg)
                 if not sch:
                     raise ToolError("TLC simulation produced no schedules")
                 sj = os.path.join(work, "tlc_sched.json")
